@@ -306,3 +306,221 @@ def text_corpus(rng, n_valid=100, n_mut=100, n_soup=100, n_raw=50):
     for _ in range(n_raw):
         out.append(("raw", raw_unicode(rng)))
     return out
+
+
+# ---------------------------------------------------------------------------------------------
+# G2: structured programs, conforming by construction (C04), with optional injected violations (C05)
+# ---------------------------------------------------------------------------------------------
+class Fn:
+    def __init__(self, name, nargs, saved, uses_ra, frame):
+        self.name, self.nargs, self.saved, self.uses_ra, self.frame = name, nargs, saved, uses_ra, frame
+
+
+def conforming(rng, nfuncs=None, depth=2, recursion=True):
+    """returns (lines, meta) - a program following the calling convention.
+    Shape: main (no frame; exit ecall), then functions with prologue/body/epilogue/ret."""
+    nfuncs = rng.randrange(0, 4) if nfuncs is None else nfuncs
+    fns = []
+    for i in range(nfuncs):
+        nargs = rng.randrange(0, 4)
+        saved = rng.sample(SAVED, rng.randrange(0, 4))
+        fns.append(Fn("fn%d" % i, nargs, saved, True, 0))
+    lines = []
+    lab = [0]
+
+    def newlabel(p="L"):
+        lab[0] += 1
+        return "%s%d" % (p, lab[0])
+
+    def body(fn, avail_tmp, depth, out):
+        """emit statements; avail_tmp = temporaries currently holding a defined value (list)"""
+        n = rng.randrange(1, 5)
+        defined = list(avail_tmp)
+        for _ in range(n):
+            k = rng.random()
+            if k < 0.35 or not defined:
+                t = rng.choice(TEMPS)
+                out.append("li %s, %d" % (t, rng.randrange(-50, 50)))
+                # use it right away so the value is never dead
+                d = rng.choice(TEMPS)
+                out.append("addi %s, %s, %d" % (d, t, rng.randrange(1, 9)))
+                out.append("add a0, a0, %s" % d)
+            elif k < 0.5 and fn is not None and fn.saved:
+                s = rng.choice(fn.saved)
+                out.append("addi %s, a0, %d" % (s, rng.randrange(1, 5)))
+                out.append("add a0, a0, %s" % s)
+            elif k < 0.7 and depth > 0:
+                l_else, l_end = newlabel("else"), newlabel("end")
+                out.append("%s a0, %s" % (rng.choice(["beqz", "bnez", "bltz", "bgez"]), l_else))
+                body(fn, [], depth - 1, out)
+                out.append("j %s" % l_end)
+                out.append("%s:" % l_else)
+                body(fn, [], depth - 1, out)
+                out.append("%s:" % l_end)
+            elif k < 0.8 and depth > 0:
+                l_top, l_out = newlabel("loop"), newlabel("out")
+                out.append("%s:" % l_top)
+                out.append("blez a0, %s" % l_out)
+                out.append("addi a0, a0, -1")
+                out.append("j %s" % l_top)
+                out.append("%s:" % l_out)
+            elif k < 0.92 and fns:
+                callee = rng.choice(fns)
+                if fn is None or recursion or callee is not fn:
+                    for a in range(callee.nargs):
+                        if a > 0:
+                            out.append("li a%d, %d" % (a, rng.randrange(0, 9)))
+                    out.append(rng.choice(["jal %s", "call %s", "jal ra, %s"]) % callee.name)
+            else:
+                num, sig = rng.choice([(1, 1), (11, 1), (34, 1), (4, 1)])
+                out.append("li a7, %d" % num)
+                out.append("ecall")
+                out.append("li a0, 0")
+
+    # main
+    out = ["main:"]
+    out.append("li a0, %d" % rng.randrange(0, 20))
+    for callee in fns:          # every function is called at least once (else it is not a function)
+        for a in range(1, callee.nargs):
+            out.append("li a%d, %d" % (a, rng.randrange(0, 9)))
+        out.append(rng.choice(["jal %s", "call %s", "jal ra, %s"]) % callee.name)
+    body(None, [], depth, out)
+    out += ["li a7, 1", "ecall"]          # print a0: the last value computed is used
+    out.append("li a7, 10")
+    out.append("ecall")
+    lines += out
+    for fn in fns:
+        out = ["%s:" % fn.name]
+        slots = ["ra"] + fn.saved
+        frame = 4 * len(slots) + 4 * rng.randrange(0, 3)
+        out.append("addi sp, sp, -%d" % frame)
+        offs = {}
+        for i, r in enumerate(slots):
+            offs[r] = 4 * i
+            out.append("sw %s, %d(sp)" % (r, 4 * i))
+        for a in range(1, fn.nargs):
+            out.append("add a0, a0, a%d" % a)
+        body(fn, [], depth, out)
+        for r in slots:
+            out.append("lw %s, %d(sp)" % (r, offs[r]))
+        out.append("addi sp, sp, %d" % frame)
+        out.append("ret")
+        lines += out
+    return lines, dict(functions=[f.name for f in fns])
+
+
+VIOLATIONS = ["save-to-zero", "dead-assignment", "invalid-use-after-call", "invalid-use-before-assignment",
+              "overwrite-callee-saved-register", "lost-register-value", "invalid-stack-offset-usage", "invalid-segment",
+              "unknown-ecall", "unreachable-code", "invalid-jump-to-function", "first-instruction-is-function"]
+
+
+def inject(rng, lines, kind):
+    """returns (lines', expected_code, marker_text) or None if not applicable"""
+    L = list(lines)
+    fn_starts = [i for i, l in enumerate(L) if l.startswith("fn") and l.endswith(":")]
+    main_end = fn_starts[0] if fn_starts else len(L)
+    if kind == "save-to-zero":
+        i = rng.randrange(1, main_end - 1)
+        L.insert(i, "addi zero, a0, 1")
+        return L, "save-to-zero", "addi zero, a0, 1"
+    if kind == "dead-assignment":
+        i = rng.randrange(2, main_end - 1)
+        L.insert(i, "li t6, 77")
+        return L, "dead-assignment", "li t6, 77"
+    if kind == "unknown-ecall":
+        i = rng.randrange(2, main_end - 1)
+        L[i:i] = ["addi a7, a0, 3", "ecall", "li a0, 0"]
+        return L, "unknown-ecall", "ecall"
+    if kind == "invalid-segment":
+        i = rng.randrange(2, main_end - 1)
+        L[i:i] = [".data", "addi a0, a0, 1", ".text"]
+        return L, "invalid-segment", "addi a0, a0, 1"
+    if kind == "unreachable-code":
+        L += ["addi a0, a0, 5"] if not fn_starts else []
+        if fn_starts:
+            return None
+        return L, "unreachable-code", "addi a0, a0, 5"
+    if kind == "invalid-use-after-call" and fn_starts:
+        calls = [i for i in range(main_end) if L[i].startswith(("jal", "call"))]
+        if not calls:
+            return None
+        i = rng.choice(calls)
+        L.insert(i, "li t4, 5")
+        L.insert(i + 2, "add a0, a0, t4")
+        return L, "invalid-use-after-call", "add a0, a0, t4"
+    if kind == "invalid-use-before-assignment":
+        L.insert(2, "add a0, a0, t5")
+        return L, "invalid-use-before-assignment", "add a0, a0, t5"
+    if kind == "overwrite-callee-saved-register" and fn_starts:
+        f = rng.choice(fn_starts)
+        # after the prologue (find first non sw/addi line)
+        j = f + 1
+        while j < len(L) and (L[j].startswith("sw ") or L[j].startswith("addi sp")):
+            j += 1
+        used = set(w for l in L for w in l.replace(",", " ").split())
+        cand = [s for s in SAVED if s not in used]
+        if not cand:
+            return None
+        s = cand[0]
+        L[j:j] = ["li %s, 3" % s, "add a0, a0, %s" % s]
+        return L, "overwrite-callee-saved-register", "li %s, 3" % s
+    if kind == "invalid-stack-offset-usage" and fn_starts:
+        f = rng.choice(fn_starts)
+        j = f + 1
+        while j < len(L) and (L[j].startswith("sw ") or L[j].startswith("addi sp")):
+            j += 1
+        frame = int(L[f + 1].split("-")[1])
+        L.insert(j, "sw a0, %d(sp)" % frame)
+        return L, "invalid-stack-offset-usage", "sw a0, %d(sp)" % frame
+    if kind == "invalid-jump-to-function" and fn_starts:
+        name = L[rng.choice(fn_starts)][:-1]
+        i = main_end - 2
+        L.insert(i, "j %s" % name)
+        return L, "invalid-jump-to-function", "j %s" % name
+    if kind == "first-instruction-is-function" and fn_starts:
+        name = L[fn_starts[0]][:-1]
+        body = L[fn_starts[0]:]
+        main = L[:fn_starts[0]]
+        return body + main, "first-instruction-is-function", name
+    return None
+
+
+# ---------------------------------------------------------------------------------------------
+# G3: arbitrary flow
+# ---------------------------------------------------------------------------------------------
+def random_flow(rng, n=None):
+    n = n if n is not None else rng.randrange(2, 18)
+    labels = ["B%d" % i for i in range(rng.randrange(1, 6))]
+    lines = ["main:"]
+    placed = set()
+    for i in range(n):
+        if rng.random() < 0.3:
+            l = rng.choice(labels)
+            if l not in placed:
+                placed.add(l)
+                lines.append("%s:" % l)
+        k = rng.random()
+        tgt = rng.choice(labels)
+        if k < 0.2:
+            lines.append("j %s" % tgt)
+        elif k < 0.4:
+            lines.append("%s %s, %s, %s" % (rng.choice(["beq", "bne", "blt"]), rng.choice(TEMPS + ARGS), rng.choice(TEMPS + ["zero"]), tgt))
+        elif k < 0.5:
+            lines.append("%s %s" % (rng.choice(["jal", "call", "jal t0,"]), tgt))
+        elif k < 0.6:
+            lines.append("ret")
+        elif k < 0.65:
+            lines += ["li a7, %d" % rng.choice([10, 93, 1, 5, 7]), "ecall"]
+        elif k < 0.7:
+            lines.append("ecall")
+        else:
+            m, ops = statement(rng, labels)
+            if m in ("j", "jal", "call", "b", "jr", "jalr") or m in BRANCH or m in BRANCHZ:
+                m, ops = "addi", ["t0", "t0", "1"]
+            lines.append(m + " " + ", ".join(ops))
+    for l in labels:
+        if l not in placed:
+            lines.append("%s:" % l)
+            if rng.random() < 0.8:
+                lines.append(rng.choice(["ret", "li a7, 10", "addi a0, a0, 1", "ecall"]))
+    return "\n".join(lines) + "\n"
